@@ -4,6 +4,7 @@ import ast
 from ..index import AnalysisError, norm, walk_no_nested
 from ..astutil import dotted
 from .. import dtable
+from .. import cfg as cfgmod
 
 MOD = "problog.tasks.sample"
 
@@ -133,3 +134,52 @@ def run(repo, col):
     col.decide("M5", m, cp.node, ok2, "the remaining mass of every unresolved group is multiplied in",
                "compute_probability must multiply self.probability by the remaining mass of each group in which no head was chosen (and skip closed groups)",
                construct="def compute_probability", function="SampledFormula.compute_probability")
+
+
+    # M6: rejection sampling: a sample is yielded / counted only on the accepting edge of verify_evidence
+    col.rule("M6", "only samples accepted by verify_evidence are output or counted")
+    mod = repo.module(MOD)
+    n6 = 0
+    for fname in ("sample", "estimate"):
+        fn = mod.functions.get(fname)
+        if fn is None:
+            raise AnalysisError("%s.%s missing" % (MOD, fname))
+        g = cfgmod.build(fn.node)
+        facts = cfgmod.available_facts(g)
+        vtests = [n for n in g.stmt_nodes() if n.kind == "test" and isinstance(n.ast, ast.Call) and dotted(n.ast.func) == "verify_evidence"]
+        if len(vtests) != 1:
+            raise AnalysisError("%s: verify_evidence test not found" % fname)
+        vsrc = norm(vtests[0].ast)
+        for node in g.stmt_nodes():
+            if node.kind != "stmt":
+                continue
+            a = node.ast
+            counted = None
+            if isinstance(a, ast.AugAssign) and isinstance(a.op, ast.Add) and norm(a.target) in ("i", "counts") :
+                counted = "the sample counter %s" % norm(a.target)
+            elif isinstance(a, ast.AugAssign) and norm(a.target).startswith("estimates["):
+                counted = "the query estimate"
+            elif isinstance(a, ast.Expr) and isinstance(a.value, ast.Yield):
+                counted = "the output"
+            if counted is None:
+                continue
+            n6 += 1
+            st = facts.get(node.id) or frozenset()
+            col.decide("M6", mod, a, (vsrc, True) in st, "%s is updated only for an accepted sample" % counted,
+                       "%s: %s is updated on a path where verify_evidence(...) did not accept the sample: rejected samples are counted/output, so frequencies converge to "
+                       "the joint P(query, evidence) instead of the conditional P(query | evidence)" % (fname, counted), function=fname)
+    col.floor("M6.accounting_statements", n6, 4)
+    # M7: compute_probability finalises the sample (it resolves and CLEARS the group bookkeeping): only the output stage may call it
+    col.rule("M7", "compute_probability is called only by the output methods of SampledFormula")
+    ncall = 0
+    for f2 in repo.all_functions():
+        if f2.module.name != MOD:
+            continue
+        for n in walk_no_nested(f2.node):
+            if isinstance(n, ast.Call) and isinstance(n.func, ast.Attribute) and n.func.attr == "compute_probability":
+                ncall += 1
+                okc = f2.cls is not None and f2.cls.name == "SampledFormula" and f2.name in ("to_string", "to_dict")
+                col.decide("M7", mod, n, okc, "finalisation happens at output time", "%s calls compute_probability(), which clears the per-disjunction bookkeeping (self.groups): if this "
+                           "happens before the evidence is grounded into the same sample, heads of a disjunction reached through evidence are drawn afresh and two heads can be true" % f2.qualname,
+                           function=f2.qualname)
+    col.floor("M7.finalisation_calls", ncall, 1)
